@@ -107,6 +107,9 @@ class Facts:
         self.hir = {}
         for it in d["hir"]:
             self.hir.setdefault(it["path"], it)
+        # new helper functions are transparent in the HIR view (see inline.py)
+        import inline
+        self.inlined = inline.apply(self)
         self.mir = {}
         self.promoted = {}
         for b in d["mir"]:
